@@ -107,3 +107,51 @@ Definition affected_null_b (root : node) (aff : list N) (pt : ptree) (ref0 dataF
   json_eqb (expected_data root aff pt ref0) dataF.
 
 Definition errors_nonempty_b (nfaults nerrors : N) : bool := (nfaults =? 0) || (0 <? nerrors).
+
+(* ================= Prop-level vocabulary of the theorems (Properties.v) ================= *)
+Fixpoint fetches_of (t : ftree) : list fetch :=
+  match t with
+  | FTSingle f => [f]
+  | FTSeq l | FTPar l => (fix go (l : list ftree) : list fetch := match l with [] => [] | t :: r => fetches_of t ++ go r end) l
+  end.
+
+(* the post-processing paths the planner emits for each fetch kind *)
+Definition datapath_of (k : fkind) : rpath :=
+  match k with
+  | FSingle => [PName k_data]
+  | FEntity => [PName k_data; PName k_entities; PIdx 0]
+  | FBatch => [PName k_data; PName k_entities]
+  end.
+Definition fetch_wf (kind_of : N -> fkind) (f : fetch) : bool :=
+  (match kind_of (f_id f), f_kind f with
+   | FSingle, FSingle | FEntity, FEntity | FBatch, FBatch => true
+   | _, _ => false
+   end) &&
+  (fix eq (a b : rpath) : bool :=
+     match a, b with
+     | [], [] => true
+     | PName x :: a', PName y :: b' => bytes_eqb x y && eq a' b'
+     | PIdx x :: a', PIdx y :: b' => (x =? y) && eq a' b'
+     | _, _ => false
+     end) (f_datapath f) (datapath_of (f_kind f)).
+
+Section Runs.
+  Variable answer : N -> bytes -> json * list json.
+  Variable root_answer : N -> json * list json.
+  Variable kind_of : N -> fkind.
+
+  (* the loader state after running the plan against the pointwise subgraphs under a fault map *)
+  Definition run (F : N -> option fault) (t : ftree) : lstate :=
+    fst (load unit (faulty_exchange answer root_answer kind_of F) t tt).
+  Definition no_faults : N -> option fault := fun _ => None.
+End Runs.
+
+(* fault kinds after which the loader always reports an error (the property's list, with the
+   `_entities` count faults only for batch fetches: see errors_nonempty_refuted) *)
+Definition loud (fk : fkind) (k : fault) : bool :=
+  match k with
+  | FtTransport | FtStatusEmpty | FtStatusText | FtStatusErrors | FtEmpty | FtNonJSON | FtTruncated | FtNaNBody
+  | FtErrorsNoData | FtErrorsNullData | FtNullData => true
+  | FtCountLess | FtCountMore => match fk with FBatch => true | _ => false end
+  | _ => false
+  end.
